@@ -135,7 +135,10 @@ func runCloseUnserved(r *ev.Run, prop string, g *rng.R) {
 		}
 		trials := pick(r, 6, 20)
 		if conn {
-			trials = pick(r, 600, 2400)
+			trials = pick(r, 600, 1200)
+		}
+		if raceEnabled {
+			trials = (trials + 3) / 4 // the race pass repeats the workload for the detector, not for the count
 		}
 		// one trial at a time except on sshswarm (own TCP ports): quic-go keeps a process-wide registry of packet connections by
 		// local address text, and two in-memory realms alive at once hand out the same texts
